@@ -178,3 +178,46 @@ func VerifC02ControlStep() {
 	vf.Assert("pending-rest-consumed-by-control", w.tickDelta == 0)
 	vf.Reach("end")
 }
+
+// VerifC02TwoNotes: two consecutive chords from an arbitrary state: the second starts exactly
+// where the first ends, and on every track the first chord's events come before the second's
+// (so at a shared tick a release precedes the next strike, also of the same pitch).
+func VerifC02TwoNotes() {
+	n := vf.NondetIntRange("tracks", 1, vf.Param("C02.maxTracks2", 3))
+	w, ts, base, g, rest := verifWriter(n)
+	k1 := vf.NondetIntRange("keys1", 1, 2)
+	k2 := vf.NondetIntRange("keys2", 1, 2)
+	mk := func(k int, name string) []uint8 {
+		ks := make([]uint8, k)
+		for i := range ks {
+			ks[i] = vf.NondetUint8(name)
+		}
+		return ks
+	}
+	keys1, keys2 := mk(k1, "a"), mk(k2, "b")
+	v1 := verifDurations[vf.NondetIntRange("dur1", 0, 4)]
+	v2 := verifDurations[vf.NondetIntRange("dur2", 5, 9)]
+	t1, t2 := w.newTicks(v1), w.newTicks(v2)
+	vf.Assert("first-ok", w.Note(v1, 64, keys1...) == nil)
+	marks := make([]int, n)
+	for i := range marks {
+		marks[i] = len(ts.list[i].ops)
+	}
+	vf.Assert("second-ok", w.Note(v2, 64, keys2...) == nil)
+	start := g + rest
+	for i := 0; i < n; i++ {
+		abs := base[i]
+		for j, o := range ts.list[i].ops {
+			abs += o.TickDelta
+			first := j < marks[i]
+			switch o.Func.(type) {
+			case *NoteOn:
+				vf.Assert("strike-at-its-instance-start", abs == vf.Ite(first, start, start+t1))
+			case *NoteOff:
+				vf.Assert("release-at-its-instance-end", abs == vf.Ite(first, start+t1, start+t1+t2))
+			}
+		}
+		vf.Assert("clock-after-two-chords", abs+ts.list[i].tickDelta == start+t1+t2)
+	}
+	vf.Reach("end")
+}
